@@ -47,6 +47,10 @@ Globals == << Zero, One, M1, BigSub(RJ, BigOne), RJ, Rnd(1), Rnd(2) >>
 (* ---- relations (what must be satisfiable, what must be returned) ------- *)
 Ok(ret) == [res |-> "ok", ret |-> ret]
 Unsat == [res |-> "err:CircuitUnsatisfied", ret |-> << >>]
+\* adversarial overrides keyed by the specification's layout: the property demands that
+\* NO assignment is accepted with a returned value other than `ret`; so the outcome is
+\* CircuitUnsatisfied or -- if the overrides did not take effect -- `ret` itself
+NotOther(ret) == [res |-> "unsat-or", ret |-> ret]
 ErrC(c) == [res |-> c, ret |-> << >>]
 
 RangeRel(n, x) == IF n >= 255 \/ IntLt2k(x, n) THEN Ok(<< >>) ELSE Unsat
@@ -268,11 +272,12 @@ AliasOps(x, n) ==
   LET y == BigAdd(x, R)
   IN << Wt(x, "x"), [op |-> "decomposition", w |-> "x", n |-> n, out |-> "bits"] >>
      \o Flat([i \in 1..n |->
-           << [op |-> "set_witness", w |-> 7 + 2 * (i - 1), v |-> BInt(BigBit(y, i - 1))],
-              [op |-> "set_witness", w |-> 8 + 2 * (i - 1), v |-> BigMod(BigLow(y, i), R)] >>])
+           << [op |-> "set_witness_opt", w |-> 7 + 2 * (i - 1), v |-> BInt(BigBit(y, i - 1))],
+              [op |-> "set_witness_opt", w |-> 8 + 2 * (i - 1), v |-> BigMod(BigLow(y, i), R)] >>])
 AliasCases ==
   Flat(Map(<<254, 255, 256>>, LAMBDA n : Map(<< BInt(5), Zero, Rnd(61) >>, LAMBDA x :
-        [g |-> "decomposition-alias", n |-> n, x |-> x, expect |-> Unsat, ops |-> AliasOps(x, n)])))
+        [g |-> "decomposition-alias", n |-> n, x |-> x,
+         expect |-> NotOther([i \in 1..n |-> BInt(BigBit(x, i - 1))]), ops |-> AliasOps(x, n)])))
 
 \* ---- alias adversaries (C10 / C11): the specification's own honest generators are
 \* run on the INTEGER x + r in place of the input (all derived witnesses are then the
@@ -286,19 +291,20 @@ Overrides(honest, aliased, fixed) ==
       RECURSIVE toSeq(_)
       toSeq(S) == IF S = {} THEN << >>
                   ELSE LET m == CHOOSE a \in S : \A b \in S : a <= b
-                       IN << [op |-> "set_witness", w |-> m - 1, v |-> aliased[m]] >> \o toSeq(S \ {m})
+                       IN << [op |-> "set_witness_opt", w |-> m - 1, v |-> aliased[m]] >> \o toSeq(S \ {m})
   IN toSeq(idx)
 
 TruncAlias(n, x) ==
   LET honest == C!Truncate(InState(x), 7, n).st.vals
       aliased == C!Truncate(InState(BigAdd(x, R)), 7, n).st.vals
-  IN [g |-> "truncate-alias", n |-> n, x |-> x, expect |-> Unsat,
+  IN [g |-> "truncate-alias", n |-> n, x |-> x, expect |-> NotOther(<< BigLow(x, n) >>),
       ops |-> << Wt(x, "x"), [op |-> "truncate", w |-> "x", n |-> n, out |-> "t"] >>
               \o Overrides(honest, aliased, {7})]
 LogicAlias(p, xor, x, y) ==
   LET honest == C!Logic(InState2(x, y), 7, 8, p, xor).st.vals
       aliased == C!Logic(InState2(BigAdd(x, R), y), 7, 8, p, xor).st.vals
-  IN [g |-> "logic-alias", n |-> p, xor |-> xor, x |-> x, expect |-> Unsat,
+  IN [g |-> "logic-alias", n |-> p, xor |-> xor, x |-> x,
+      expect |-> NotOther(<< BitwiseRec(x, y, 2 * p, xor, 0) >>),
       ops |-> << Wt(x, "x"), Wt(y, "y"),
                  [op |-> "logic", a |-> "x", b |-> "y", pairs |-> p, xor |-> xor, out |-> "o"] >>
               \o Overrides(honest, aliased, {7, 8})]
